@@ -228,6 +228,18 @@ def check_product(case, ctx):
     ctx.require(np.all(np.abs(v3 - want) <= 1e-12), "bvn_zero_cov", lambda: "bvn_cdf(sigma_xy=0) %r vs %r" % (v3, want))
 
 
+    # documented defaults: mu=None is the origin, sigma=None the identity covariance; the sub-functions' defaults are mean 0, variance 1
+    zz = np.array(case["z"], dtype=float).reshape(-1, 2)
+    std = ndtr(zz[:, 0]) * ndtr(zz[:, 1])
+    d1 = np.asarray(ctx.call(IK.gaussian, zz[:, 0], zz[:, 1]))
+    ctx.require(np.all(np.abs(d1 - std) <= 1e-12), "gaussian_defaults", lambda: "gaussian(x, y) with default mu / sigma %r vs standard normal product %r" % (d1, std))
+    d2 = np.asarray(ctx.call(IK.gaussian, x, y, mu=mu))
+    want_id = ndtr(x - mu[0]) * ndtr(y - mu[1])
+    ctx.require(np.all(np.abs(d2 - want_id) <= 1e-12), "gaussian_defaults", lambda: "gaussian(x, y, mu) with default sigma %r vs unit-variance product %r" % (d2, want_id))
+    d3 = np.asarray(ctx.call(IK.gaussian, zz[:, 0] * math.sqrt(vx), zz[:, 1] * math.sqrt(vy), sigma=[[vx, 0.0], [0.0, vy]]))
+    ctx.require(np.all(np.abs(d3 - std) <= 1e-12), "gaussian_defaults", lambda: "gaussian(x, y, sigma=...) with default mu %r vs %r" % (d3, std))
+
+
 def check_norm_cdf(case, ctx):
     x = np.array(case["x"], dtype=float)
     ctx.nontrivial(len(x) >= 2)
